@@ -442,6 +442,13 @@ theorem unmarshal_marshal_exact (sch : Schema) (hs : schemaOk sch = true) (vs : 
 theorem wire_table_schemas_ok (t : Nat) (sch : Schema) (h : schemaOf t = some sch) : schemaOk sch = true :=
   schemaOf_ok h
 
+/-- Marshal emits the fields in field-number order (`orderedCoderFields`); the model emits them in schema
+    order: in every schema of the table the two orders coincide, and the table's type numbers are 1 … 36 -/
+theorem wire_table_fields_ascending :
+    (opTable.all fun e => decide ((e.2.2.map (·.1)).Pairwise (· < ·))) = true ∧
+    opTable.map (·.1) = (List.range 37).drop 1 := by
+  decide +kernel
+
 /-- DecodeOp (Encode op) = op for every operation type of the table and every well-formed record;
     Marshal reports no error for it -/
 theorem decodeOp_encodeOp (op : Op) (h : op.wf = true) :
